@@ -30,10 +30,12 @@ def main(tier, seed):
     # results of runs that redefine the objective on the fly also carry hess_inv: positive curvature of its pairs
     RW = "harness.orch_rel:c13_rewrite"
     jobs.append((RW, dict(K=3, ls_mode="unit", at=3, maxcor=3)))
+    jobs.append((RW, dict(K=3, ls_mode="unit", at=2, maxcor=2)))
     exs = driver.explore_many(jobs, time_limit=900 if tier == "quick" else 3600, timeout_ms=60000)
     for ex in exs:
         if ex.target == RW:
-            ex.candidates = [c for c in ex.candidates if c["name"].startswith("C18.")]
+            # (pair provenance after a redefinition is C18's own statement too)
+            ex.candidates = [c for c in ex.candidates if c["name"].startswith("C18.") or c["name"] == "C13.pairs_are_differences_of_rewritten_gradients"]
             chk.add(ex)
             if ex.candidates:
                 from . import rel_common
